@@ -161,7 +161,9 @@ theorem filterMap_varDefNodes (vars : List VarDef) : (vars.flatMap varDefNodes).
       · cases hd : v.default with
         | none => rw [hd] at hn; cases hn
         | some dv => rw [hd] at hn; exact valueNodes_noVarDef dv n hn
-      · simp only [List.mem_singleton] at hn; subst hn; rfl
+      · rcases List.mem_cons.mp hn with rfl | hn
+        · rfl
+        · exact dirsNodes_noVarDef v.dirs n hn
 
 theorem defnsOf_tnDef (s : SchemaD) (df : Def) : defnsOf (vlog s (tnDef s df)) = df.vars := by
   rw [defnsOf_vlog, tnDef_fst]
